@@ -108,9 +108,13 @@ def cases(shard, rnd):
             yield {'t': 'header',
                    'props': gf.props_for_mask(rnd, rnd.getrandbits(13)),
                    'size': gf.rbody_size(rnd), 'ch': gf.rchannel(rnd)}
-        for _ in range(shard['per']):
-            yield {'t': 'body', 'body': rnd.randbytes(rnd.randint(1, 64)),
-                   'ch': gf.rchannel(rnd)}
+        for k in range(shard['per']):
+            b = rnd.randbytes(rnd.randint(1, 64))
+            if k % 3 == 1:
+                b = bytearray(b)          # a caller's mutable buffer
+            elif k % 3 == 2:
+                b = memoryview(b)
+            yield {'t': 'body', 'body': b, 'ch': gf.rchannel(rnd)}
 
 
 def _check_sorted(data, rec, case, what):
@@ -249,7 +253,15 @@ def run_case(case, rec):
         elif t == 'method':
             spec = refspec.METHODS[case['index']]
             cls = boundary.lib_class_for(case['index'])
-            c = call(cls, **copy.deepcopy(case['vals']))
+            vals_ = copy.deepcopy(case['vals'])
+            if case['ch'] % 3 == 0:
+                # flags given as the ints 0 / 1 (accepted like bools)
+                for a_, t_, _d in spec.args:
+                    if t_ == 'bit' and isinstance(vals_[a_], bool) and \
+                            gf.constraint_of(spec, a_)[0] is None:
+                        vals_[a_] = int(vals_[a_])
+                        rec.count('int_flags_encoded')
+            c = call(cls, **vals_)
             if not c.ok:
                 rec.count('refused')
                 return
